@@ -4,6 +4,7 @@ set -e
 cd "$(dirname "$0")"
 export CARGO_NET_OFFLINE=true
 python3 tools/ops_table.py --check
-(cd lean && lake build GeonumModel gdriver)
+mkdir -p work && python3 tools/featmodel.py
+(cd lean && lake build GeonumModel GeonumModel.Props.C20 gdriver)
 (cd harness && cargo build --offline)
 echo setup-ok
